@@ -1,6 +1,7 @@
 package props
 
 import (
+	"astverif/crc"
 	"astverif/crcgate"
 	"astverif/itersafe"
 	"astverif/layout"
@@ -8,7 +9,10 @@ import (
 	"astverif/tables"
 )
 
-func init() { register("C09", "other", c09) }
+func init() {
+	register("C09", "other", c09)
+	crcgate.OffsetsFallback = tables.OffsetsDefined
+}
 
 func c09(c *Ctx) {
 	r := c.R
@@ -20,7 +24,8 @@ func c09(c *Ctx) {
 		"(c) The data result of parsePSISection (in parsePSIData), parsePSIData (in parseData) and parseData (both sites in NextData) is used only in blocks dominated by the nil edge of the test of the error returned by the same call; NextData's error returns carry a provably nil data pointer. " +
 		"OUTPUT. (d) writePSISection: one SetWriteCallback(non-nil) on the writer parameter, under hasCRC32(); no emission (Write/WriteN/WriteBytesN on the writer or a batch over it, or a repository function receiving the writer) can execute before it and every path to an emission installs it or takes the hasCRC32()=false edge; the closure's only effect is v = updateCRC32(v, bs) on one captured uint32; v is assigned once outside the closure, the constant 0xFFFFFFFF (equal to the constant computeCRC32 starts from), before installation and before any emission; the single 32-bit emission writes a load of v taken after every other emission, is the last emission, sits under hasCRC32(), and every error-free exit passes it (or the hasCRC32()=false edge, or a gate handled in (f)); a deferred SetWriteCallback(nil) is registered on every installing path with no exit in between (or every path from the installation to a return calls it directly) and every return runs the deferred calls; no other SetWriteCallback can execute before an emission, neither in writePSISection nor in its callees; no callee assigns PSISectionHeader.TableID. " +
 		"(f) The single 12-bit emission writes calcPSISectionLength(s) computed before any emission, never a struct field. Body and CRC_32 are gated by s.Header.SectionLength > 0 (struct field, NOT the emitted value): the sections that can reach the writer are enumerated by following the parameter through all static call sites and composite literals (generatePAT, generatePMT; any store into the watched fields of that object graph that does not go through the allocation itself makes the enumeration undecided); in each the field is the table-specific calculator that calcPSISectionLength adds for the very data stored in section.Syntax.Data, and it is provably positive (calcPMTSectionLength starts from 4; calcPATSectionLength = 4·len(Programs) with Programs holding one entry per entry of Muxer.pm.p, a map that NewMuxer — the only allocator of Muxer — fills unconditionally and that no reachable code deletes from). " +
-		"NOT decided here: value-level agreement with a reference decoder on corrupted input beyond `CRC mismatch ⇒ error` (a corrupted section_length that still frames a CRC-consistent byte range is accepted by any decoder); that the polynomial arithmetic is CRC-32/MPEG-2 (C10); that section_length equals the number of bytes emitted after it, nested descriptor loops included (obligation A2, added separately); uint16 wrap-around of the length calculators above 65535 bytes."
+		"(g) joined from C10: the proof F1–F6 that updateCRC32/computeCRC32 are CRC-32/MPEG-2 and one and the same fold (also when computeCRC32 writes the fold out instead of calling updateCRC32): both directions compute the same function. " +
+		"NOT decided here: value-level agreement with a reference decoder on corrupted input beyond `CRC mismatch ⇒ error` (a corrupted section_length that still frames a CRC-consistent byte range is accepted by any decoder); that section_length equals the number of bytes emitted after it, nested descriptor loops included (obligation A2, added separately); uint16 wrap-around of the length calculators above 65535 bytes."
 	r.RuleText = "C09a: per error-free return of parsePSISection 2 obligations (gate, syntax-implies-test) + comparison/operand/slice-bound/position obligations + 2 offset obligations in parsePSISectionHeader; T1: one obligation per truth-table clause; C09c: one obligation per call site on the chain parsePSISection→parsePSIData→parseData→NextData + NextData's error returns; C09d: one obligation per sub-fact of the callback discipline; C09f: emitted length, gate, and per producer field-origin and positivity. Keys are rule/function/construct. Anything whose shape is not recognised is reported undecided, never passed. Vacuity floors on returns, emissions, call sites, producers, T1 clauses."
 	r.Trusted = []string{
 		"go/types + go/ssa (x/tools v0.29.0): SSA construction, dominator tree, referrers, static callees",
@@ -30,6 +35,9 @@ func c09(c *Ctx) {
 		"ranging over a map that is not modified during the loop visits every entry exactly once",
 	}
 	crcgate.Run(c.P, r)
+	// "valid CRC_32" means the function both directions compute is CRC-32/MPEG-2 and is the same function: the proof of C10 (F1–F6),
+	// which also covers computeCRC32 written as its own fold instead of a call of updateCRC32
+	crc.Prove(c.P, r)
 	before := len(r.Obls)
 	tables.T1(c.P, r)
 	r.Floor("T1", "truth-table obligations imported into C09", len(r.Obls)-before, 20)
